@@ -176,19 +176,62 @@ def atoms_of(t):
     return out
 
 
-def hint(t, e: Env):
+def _clear_typing_caches():
+    """typing memoises `X[args]` on args that compare EQUAL, and Union[A,B] == Union[B,A]: after List[Union[B,A]] was
+    built once, List[Union[A,B]] returns the cached List[Union[B,A]]. What a generated class means must not depend
+    on what the process built before, so the alias caches are dropped before every hint construction."""
+    for f in getattr(typing, "_cleanups", ()):
+        try:
+            f()
+        except Exception:
+            pass
+
+
+def _hint(t, e: Env):
     k = t[0]
     if k == "atom":
         return e.atom_types[t[1]]
     if k == "Optional":
-        return Optional[hint(t[1], e)]
+        return Optional[_hint(t[1], e)]
     if k == "List":
-        return List[hint(t[1], e)]
+        return List[_hint(t[1], e)]
     if k == "Set":
-        return Set[hint(t[1], e)]
+        return Set[_hint(t[1], e)]
     if k == "Union":
-        return Union[tuple(hint(a, e) for a in t[1:])]  # type: ignore
+        return Union[tuple(_hint(a, e) for a in t[1:])]  # type: ignore
     raise ValueError(k)
+
+
+def _same_shape(t, h, e: Env) -> bool:
+    """does the typing object h spell exactly the expression t (member order included)?"""
+    k = t[0]
+    if k == "atom":
+        return h is e.atom_types[t[1]] or h == e.atom_types[t[1]] and typing.get_args(h) == typing.get_args(e.atom_types[t[1]])
+    args = typing.get_args(h)
+    origin = typing.get_origin(h)
+    if k == "Optional":
+        if origin is not Union or args[-1] is not type(None):
+            return False
+        inner = t[1]
+        if inner[0] == "Union":  # Optional[Union[a,b]] flattens to Union[a,b,None]
+            return len(args) - 1 == len(inner) - 1 and all(_same_shape(x, y, e) for x, y in zip(inner[1:], args[:-1]))
+        return len(args) == 2 and _same_shape(inner, args[0], e)
+    if k == "List":
+        return origin is list and len(args) == 1 and _same_shape(t[1], args[0], e)
+    if k == "Set":
+        return origin is set and len(args) == 1 and _same_shape(t[1], args[0], e)
+    if k == "Union":
+        return origin is Union and len(args) == len(t) - 1 and all(_same_shape(x, y, e) for x, y in zip(t[1:], args))
+    return False
+
+
+def hint(t, e: Env):
+    """the typing object for a type expression - independent of anything built earlier in this process"""
+    _clear_typing_caches()
+    h = _hint(t, e)
+    if not _same_shape(t, h, e):
+        raise RuntimeError(f"harness: typing built {h!r} for {texpr_str(t)}")
+    return h
 
 
 def enumerate_types(max_depth: int, atoms=None, union_atoms=None, triples_atoms=()) -> List[str]:
